@@ -160,10 +160,11 @@ func c08Run(c *vk.Ctx) {
 
 	// ---- phase 2: reflections ----
 	type refl struct {
-		o    serverOutput
-		form string
-		in   []byte
-		fin  bool
+		o      serverOutput
+		form   string
+		in     []byte
+		fin    bool
+		second bool
 	}
 	var rs []refl
 	for i, o := range outputs {
@@ -186,9 +187,12 @@ func c08Run(c *vk.Ctx) {
 			enc := sscodec.NewStreamEncoder(o.key.Codec(), o.raw[:ss])
 			in = enc.Encode(targetData, nil)
 		}
-		rs = append(rs, refl{o, form, in, i%7 != 0})
+		rs = append(rs, refl{o, form, in, i%7 != 0, false})
 	}
-	jobs2 := make(chan refl)
+	var again []refl
+	var amu sync.Mutex
+	_ = &amu
+	jobs2 := make(chan refl, 100000)
 	for w := 0; w < 16; w++ {
 		wg.Add(1)
 		wr := c.SubRng("c08r", w)
@@ -211,7 +215,7 @@ func c08Run(c *vk.Ctx) {
 				obs := watchClose(cl, cl.T0.Add(c06T+c06B))
 				cl.Conn.Close()
 				rec, done := rig.WaitDone(cl.Local, c06B)
-				c.Eval(fmt.Sprintf("reflect|%s|%s|%s|fin=%v", rf.o.key.Cipher, rf.form, rname, rf.fin))
+				c.Eval(fmt.Sprintf("reflect|%s|%s|%s|fin=%v|second=%v", rf.o.key.Cipher, rf.form, rname, rf.fin, rf.second))
 				wit := map[string]any{"form": rf.form, "key": rf.o.key, "rig": rname, "client_saw": fmt.Sprintf("%+v", obs)}
 				if !done || rec == nil {
 					c.Violation("C08/handler-did-not-finish", wit)
@@ -233,14 +237,37 @@ func c08Run(c *vk.Ctx) {
 				}
 				c.Count("reflections_refused", 1)
 				c.Count("reflections_refused_"+rname, 1)
+				if !rf.fin || rf.second {
+					continue
+				}
+				// the same reflection once more: still a reflected server salt, whatever the cache remembers
+				rf2 := rf
+				rf2.second = true
+				amu.Lock()
+				if len(again) < 300 {
+					again = append(again, rf2)
+				}
+				amu.Unlock()
 			}
 		}()
 	}
 	for _, rf := range rs {
 		jobs2 <- rf
 	}
+	// wait until the first presentations are through, then present a sample a second time
+	for len(jobs2) > 0 {
+		time.Sleep(10 * time.Millisecond)
+	}
+	time.Sleep(300 * time.Millisecond)
+	amu.Lock()
+	second := append([]refl(nil), again...)
+	amu.Unlock()
+	for _, rf := range second {
+		jobs2 <- rf
+	}
 	close(jobs2)
 	wg.Wait()
+	c.Count("reflections_presented_twice", int64(len(second)))
 	smu.Lock()
 	hits := sinkHits
 	smu.Unlock()
